@@ -7,6 +7,7 @@ import MetricsVerif.Driver.C08
 import MetricsVerif.Driver.Prom
 import MetricsVerif.Driver.OnceCell
 import MetricsVerif.Driver.Recoverable
+import MetricsVerif.Driver.GenRace
 import MetricsVerif.Driver.Layers
 import MetricsVerif.Driver.Tracing
 import MetricsVerif.Driver.Recency
@@ -59,6 +60,7 @@ def step (st : DState) (line : String) : DState × String :=
     | some (p, o) => ({ st with tracing := p }, o)
     | none => (st, "bad-op")
   | "recover" :: args => (st, (Recoverable.handle args).getD "bad-op")
+  | "genrace" :: args => (st, (GenRace.handle args).getD "bad-op")
   | "cell" :: args => (st, (OnceCell.handle args).getD "bad-op")
   | "recency" :: args =>
     match Recency.handle st.recency args with
